@@ -59,14 +59,16 @@ Fixpoint read_full (n : nat) (cs : reader) {struct cs} : bytes * reader * bool :
   end.
 
 (* ---- Restore ---- *)
-Inductive sres := Stored | Ignored | Failed.
+(* Failed c / rejection c: c is the class of the error value Put / Unmarshal returned,
+   as the harness projects it (it is handed through to the caller unchanged) *)
+Inductive sres := Stored | Ignored | Failed (c : nat).
 (* error class returned by Restore *)
 Inductive rerr :=
 | ENone          (* nil *)
 | EMagic         (* ErrInvalidMagic *)
 | EEof           (* io.EOF (body of a record missing entirely) *)
 | EUnexpected    (* io.ErrUnexpectedEOF (size field or body cut) *)
-| EOther         (* Unmarshal error (ignoreErrors = false) or Put error *)
+| EOther (c : nat) (* Unmarshal error (ignoreErrors = false) or Put error, class c *)
 | EFuel.         (* model artefact: never produced, see restore_fuel_enough *)
 
 Record result := mkRes { delivered : list bytes; count : nat; failc : nat; err : rerr }.
@@ -76,7 +78,7 @@ Definition bytes_eqb (a b : bytes) : bool := if list_eq_dec N.eq_dec a b then tr
 Section Restore.
   (* outside the repo / outside this property: does object.Unmarshal accept the bytes,
      and what does Shard.Put answer (nil / expired-or-already-removed / other error) *)
-  Variable unm : bytes -> bool.
+  Variable unm : bytes -> option nat.   (* None = accepted, Some c = rejected with error class c *)
   Variable sink : bytes -> sres.
 
   (* body_read = how the record body is read: read_full (repaired code, io.ReadFull) or
@@ -96,17 +98,24 @@ Section Restore.
         | _ => mkRes (rev acc) cnt fl EUnexpected
         end
       else
-        let '(d, cs2, e0, e1) := body_read (N.to_nat (de32 sz)) cs1 in
+        (* the request is capped at one byte more than the reader still holds: asking for
+           more hits EOF with exactly the same data, so the result is unchanged; the cap
+           only keeps the unary length small when a damaged size field announces gigabytes *)
+        let want := N.to_nat (N.min (de32 sz) (N.of_nat (S (length (concat cs1))))) in
+        let '(d, cs2, e0, e1) := body_read want cs1 in
         if e0 then mkRes (rev acc) cnt fl EEof
         else if e1 then mkRes (rev acc) cnt fl EUnexpected
-        else if unm d then
+        else match unm d with
+        | None =>
           match sink d with
           | Stored => restore_loop f ign cs2 (d :: acc) (S cnt) fl
           | Ignored => restore_loop f ign cs2 acc (S cnt) fl
-          | Failed => mkRes (rev acc) cnt fl EOther
+          | Failed c => mkRes (rev acc) cnt fl (EOther c)
           end
-        else if ign then restore_loop f ign cs2 acc cnt (S fl)
-        else mkRes (rev acc) cnt fl EOther
+        | Some c =>
+          if ign then restore_loop f ign cs2 acc cnt (S fl)
+          else mkRes (rev acc) cnt fl (EOther c)
+        end
     end.
 
   Definition restore_with (ign : bool) (cs : reader) : result :=
@@ -129,25 +138,28 @@ Definition body_once (n : nat) (cs : reader) : bytes * reader * bool * bool :=
   let '(d, cs', e) := read_once n cs in
   (d ++ repeat 0%N (n - length d), cs', e, false).
 
-Definition restore (unm : bytes -> bool) (sink : bytes -> sres) := restore_with unm sink body_full.
-Definition restore_old (unm : bytes -> bool) (sink : bytes -> sres) := restore_with unm sink body_once.
+Definition restore (unm : bytes -> option nat) (sink : bytes -> sres) := restore_with unm sink body_full.
+Definition restore_old (unm : bytes -> option nat) (sink : bytes -> sres) := restore_with unm sink body_once.
 
 (* ---- reference: what restoring a list of records should do (right-hand side) ---- *)
 Section Ref.
-  Variable unm : bytes -> bool.
+  Variable unm : bytes -> option nat.
   Variable sink : bytes -> sres.
   Fixpoint ref_restore (ign : bool) (recs : list bytes) (acc : list bytes) (cnt fl : nat) : result :=
     match recs with
     | [] => mkRes (rev acc) cnt fl ENone
     | d :: r =>
-      if unm d then
+      match unm d with
+      | None =>
         match sink d with
         | Stored => ref_restore ign r (d :: acc) (S cnt) fl
         | Ignored => ref_restore ign r acc (S cnt) fl
-        | Failed => mkRes (rev acc) cnt fl EOther
+        | Failed c => mkRes (rev acc) cnt fl (EOther c)
         end
-      else if ign then ref_restore ign r acc cnt (S fl)
-      else mkRes (rev acc) cnt fl EOther
+      | Some c =>
+        if ign then ref_restore ign r acc cnt (S fl)
+        else mkRes (rev acc) cnt fl (EOther c)
+      end
     end.
 End Ref.
 
